@@ -95,10 +95,15 @@ mod serialize {
             D: Deserializer<'de>,
         {
             let minimal = MinimalSK2048::deserialize(deserializer)?;
-            // Montgomery parameters need odd (hence non-zero) moduli
-            if !bool::from(minimal.p.is_odd() & minimal.q.is_odd()) {
+            // Montgomery parameters need odd (hence non-zero) moduli,
+            // and phi = (p-1)(q-1) must not be zero
+            let one = Uint::ONE;
+            if !bool::from(minimal.p.is_odd() & minimal.q.is_odd())
+                || minimal.p == one
+                || minimal.q == one
+            {
                 return Err(serde::de::Error::custom(
-                    "invalid Paillier secret key: p and q must be odd",
+                    "invalid Paillier secret key: p and q must be odd and greater than one",
                 ));
             }
             Ok(minimal.into())
